@@ -17,6 +17,8 @@ pub struct HdlcCheck;
 pub struct Candidate {
     pub bytes: Vec<u8>,
     pub crc_ok: bool,
+    /// Bit positions of the content: after the opening flag, up to the closing flag.
+    pub span: (usize, usize),
 }
 
 /// Spec-level reference: every flag-delimited, byte-aligned candidate of a
@@ -69,7 +71,7 @@ pub fn ref_candidates(bits: &[u8]) -> Vec<Candidate> {
             let (d, f) = bytes.split_at(bytes.len() - 2);
             crc16_x25(d) == u16::from_le_bytes([f[0], f[1]])
         };
-        out.push(Candidate { bytes, crc_ok });
+        out.push(Candidate { bytes, crc_ok, span: (a, b) });
     }
     out
 }
@@ -156,7 +158,7 @@ impl Check for HdlcCheck {
         let max_size = *src.pick(&[8usize, 20, 40, 60, 300]);
         let checksum = !src.chance(1, 5);
         let fix = checksum && src.chance(1, 3);
-        let nframes = src.range(1, 4);
+        let nframes = src.range(1, if crate::engine::deep() { 10 } else { 4 });
         let noise_kind = src.below(5); // 0,1 none; 2 random; 3 adversarial; 4 random+flags
         let flip_frame = if src.chance(1, 3) { Some(src.below(nframes)) } else { None };
         let nflips = if flip_frame.is_some() { src.range(1, 2) } else { 0 };
@@ -421,6 +423,18 @@ impl Check for HdlcCheck {
                     // FCS: inherent to single-bit fixing over CRC-16, kept apart
                     // from a mis-repair of a whole frame.
                     let fragment = !tx.iter().any(|t| t.payload.len() + 2 == c.bytes.len());
+                    // Not a piece of anything transmitted at all: channel noise
+                    // between two flag patterns (the noise generator plants
+                    // flags), one bit away from a valid FCS. Same mechanism,
+                    // different history; kept apart as well.
+                    let from_noise = !tx.iter().any(|t| c.span.0 < t.close_pos && t.open_pos + 8 < c.span.1);
+                    if (1..=2).contains(&d) && from_noise {
+                        ctx.tolerate(Violation::new(
+                            "C13:noise-miscorrected",
+                            format!("output {oi} ({} bytes) was never transmitted: single-bit fixing turned {} flag-delimited noise bits (FCS failing) into a frame with a matching FCS", o.len(), c.span.1 - c.span.0),
+                        ))?;
+                        continue;
+                    }
                     if (1..=2).contains(&d) && fragment {
                         ctx.tolerate(Violation::new(
                             "C13:fragment-miscorrected",
